@@ -186,16 +186,32 @@ def previous_trace(E):
     return prev, prev_sites
 
 
-def _edit_step(kind):
+class _U:
+    """a value together with its injection into U (so that `a.t` reads the same for opaque and structured site arguments)"""
+
+    def __init__(self, t):
+        self.t = t
+
+
+def _edit_step(kind, structured=False):
     cls = {"update": "UpdateHandler", "static_request": "StaticEditRequestHandler", "regenerate": "RegenerateRequestHandler"}[kind]
 
-    @task(f"static.step.{kind}", props=["C01", "C05", "C06", "C07", "C08", "C22", "C38", "C04"], functions=FUNCS)
+    @task(f"static.step.{kind}" + ("[structured argdiffs]" if structured else ""),
+          props=["C01", "C05", "C06", "C07", "C08", "C22", "C38", "C04"], functions=FUNCS)
     def t(E):
         z3, T, SL = E.z3, E.I.T, E.I.SL
         k = key(E)
         prev, prev_sites = previous_trace(E)
         addr, g, a = site(E)
-        E.assume(T.d_is_tree(a.t))            # at an edit, the site arguments are argdiffs
+        if structured:
+            # the callee's arguments as a concrete tuple of argdiffs: a plain leaf tagged NoChange and a STRUCTURED argument
+            # (a tuple) one of whose leaves changed - a handler that inspects only the top level of the tuple sees no change
+            a_val = (diff(E, E.opaque("arg0"), NoChange(E)),
+                     (diff(E, E.opaque("arg1a"), UnknownChange(E)), diff(E, E.opaque("arg1b"), NoChange(E))))
+            a_call, a = a_val, _U(E.I.to_u(a_val))
+        else:
+            a_call = a
+            E.assume(T.d_is_tree(a.t))            # at an edit, the site arguments are argdiffs
         if kind == "update":
             what = chm(E, "constraint")
             h = E.I.call(E.cls(S_ + cls), [k, prev, what], {})
@@ -219,7 +235,7 @@ def _edit_step(kind):
         T.trace_facts(sub_old.t, g=g.t)                      # the previous site trace is a well-formed trace of G
         fold = E.ctx.fn("fold_in", U, z3.IntSort(), U)
         sub_key = fold(k.t, c.t)
-        got = E.attempt(lambda: E.method(h, "handle_trace", addr, g, a))
+        got = E.attempt(lambda: E.method(h, "handle_trace", addr, g, a_call))
         if got[0] == "raise" and got[1].kind == "KeyError":
             E.prove(f"C05.{cls}.handle_trace.KeyError_only_when_site_is_new", z3.Not(has_prev))
             return
@@ -257,7 +273,7 @@ def _edit_step(kind):
             sub_req = UVal(z3.Select(what.val, addr.t), "EditRequest")
             edit_f = E.ctx.fn("EditRequest.edit", U, U, U, U, U)
             res_addr = edit_f(sub_req.t, sub_key, sub_old.t, a.t)
-            res_empty = E.I.to_u(tuple(E.method(er, "edit", UVal(sub_key, "key"), sub_old, a)))
+            res_empty = E.I.to_u(tuple(E.method(er, "edit", UVal(sub_key, "key"), sub_old, a_call)))
             E.prove("C38.StaticEditRequestHandler.handle_trace.addressed_site_gets_its_subrequest_others_EmptyRequest",
                     E.Implies(z3.Not(z3.Select(before.has, addr.t)), E.eq(h.fields["key_counter"], SInt(c.t + 1, True))))
             after = h.fields["traces"]
@@ -266,11 +282,54 @@ def _edit_step(kind):
             E.prove("C38.StaticEditRequestHandler.handle_trace.unaddressed_site_is_EmptyRequest_edit", E.Implies(
                 z3.Not(addressed), E.And(
                     E.I.to_u(got[1]) == E.ctx.fn("tuple_get", U, z3.IntSort(), U)(res_empty, 2) if False else True,
-                    z3.Select(after.val, addr.t) == E.I.to_u(E.method(er, "edit", UVal(sub_key, "key"), sub_old, a)[0]),
-                    E.eq(h.fields["weight"], E.I.binop("Add", w0, E.method(er, "edit", UVal(sub_key, "key"), sub_old, a)[1])))))
+                    z3.Select(after.val, addr.t) == E.I.to_u(E.method(er, "edit", UVal(sub_key, "key"), sub_old, a_call)[0]),
+                    E.eq(h.fields["weight"], E.I.binop("Add", w0, E.method(er, "edit", UVal(sub_key, "key"), sub_old, a_call)[1])))))
             E.refutable(f"static.step.{kind}", E.eq(h.fields["weight"], w0))
     return t
 
 
 for _k in ("update", "static_request", "regenerate"):
     _edit_step(_k)
+    _edit_step(_k, structured=True)
+
+
+def _addr_tasks():
+    """sequences of two trace sites with STRUCTURED (tuple) addresses that share components - the opaque address of the step
+    obligations cannot tell ("a","b") from ("a","c") or ("x",) from "x" """
+    @task("static.seq.assess_missing_sibling", props=["C22"], functions=FUNCS)
+    def t_assess(E):
+        z3, T = E.z3, E.I.T
+        sample = chm(E, "sample")
+        for first, second in ((("a", "b"), ("a", "c")), ("a", ("a", "c")), (("n", "p"), ("n", "q", "r"))):
+            h = E.I.call(E.cls(S_ + "AssessHandler"), [sample], {})
+            g1, g2 = G(E, "G1"), G(E, "G2")
+            a1, a2 = E.opaque("args1", "tuple"), E.opaque("args2", "tuple")
+            sub = lambda ad: T.chm_static_empty(E.I.to_u(E.method(sample, "get_submap", *(ad if isinstance(ad, tuple) else (ad,)))))
+            st1, _ = E.attempt(lambda: E.method(h, "handle_trace", first, g1, a1))
+            if st1 != "ok":
+                continue
+            st2, r2 = E.attempt(lambda: E.method(h, "handle_trace", second, g2, a2))
+            tag = f"[{first}->{second}]"
+            if st2 == "raise":
+                E.prove("C22.AssessHandler.handle_trace.second_site.raises_MissingAddress_of_that_address_only_when_it_has_no_value" + tag,
+                        E.And(r2.kind == "MissingAddress", sub(second), len(r2.eargs) == 1 and r2.eargs[0] == second))
+            else:
+                E.prove("C22.AssessHandler.handle_trace.second_site.a_missing_sibling_address_is_reported" + tag, z3.Not(sub(second)))
+        E.refutable("static.seq.assess_missing_sibling", T.chm_static_empty(sample.t))
+
+    @task("static.seq.record_same_address_twice", props=["C22"], functions=FUNCS)
+    def t_record(E):
+        for cls, extra in (("SimulateHandler", []), ("GenerateHandler", [chm(E, "constraint")])):
+            for addr in ("x", ("x",), ("a", "x")):
+                h = E.I.call(E.cls(S_ + cls), [key(E)] + extra, {})
+                g1, g2 = G(E, "G1"), G(E, "G2")
+                st1, _ = E.attempt(lambda: E.method(h, "handle_trace", addr, g1, E.opaque("args1", "tuple")))
+                E.require(f"C22.{cls}.handle_trace.first_visit_of_an_address_is_accepted[{addr!r}]", st1 == "ok")
+                st2, r2 = E.attempt(lambda: E.method(h, "handle_trace", addr, g2, E.opaque("args2", "tuple")))
+                E.prove(f"C22.{cls}.handle_trace.second_visit_of_the_same_address_raises_AddressReuse[{addr!r}]",
+                        st2 == "raise" and r2.kind == "AddressReuse")
+        E.refutable("static.seq.record_same_address_twice", E.eq(E.real("p"), E.real("q")))
+    return t_assess, t_record
+
+
+_addr_tasks()
